@@ -29,8 +29,12 @@ inductive Prim : World → World → Prop
       (sc : Script) (jb : List Nat) :
       Prim w { w with slot := sl, lastUsed := lu, noteSent := ns, globalActive := ga, curFds := cf,
                       pendClose := pc, opened := op, closed := cl, script := sc, jobs := jb }
-  | host (w : World) (h : Nat) (f : Host → Host) (hf : HostKeep f) : Prim w (w.updHost h f)
-  | proc (w : World) (h p : Nat) (f : Proc → Proc) (hf : ProcKeep f) : Prim w (w.updProc h p f)
+  | host (w : World) (h : Nat) (f : Host → Host) (hf : HostKeep f)
+      (hl : ∀ H, (f H).load = H.load ∧ (f H).label = H.label) : Prim w (w.updHost h f)
+  | proc (w : World) (h p : Nat) (f : Proc → Proc) (hf : ProcKeep f) (hl : ∀ P, (f P).load = P.load) :
+      Prim w (w.updProc h p f)
+  | hostLoad (w : World) (h : Nat) (v : Int) : Prim w (setHostLoad w h v)   -- load and its statistics entry, at once
+  | procLoad (w : World) (h p : Nat) (v : Int) : Prim w (setProcLoad w h p v)
   | disable (w : World) (h p : Nat) (hp : p < (w.host h).nprocs) :
       Prim w (setPState (w.updProc h p fun P => { P with disabledUntil := w.now + (w.host h).disableTime })
                 h p .overloaded)
@@ -146,15 +150,30 @@ theorem setPState_other (w : World) (h p : Nat) (st : PState) :
     · simp [World.updProc, World.updHost]
     · split <;> simp [World.updProc, World.updHost]
 
+theorem static_host (a : World) (h : Nat) (f : Host → Host) (hf : HostKeep f) : Static a (a.updHost h f) := by
+  refine ⟨rfl, rfl, rfl, rfl, ?_, ?_, ?_, fun _ _ => ⟨rfl, rfl⟩, Int.le_refl _⟩
+  all_goals (intro h'; simp only [World.updHost]; by_cases e : h' = h <;> simp [e, (hf _).1, (hf _).2.2.1, (hf _).2.2.2.1, (hf _).2.2.2.2.1, (hf _).2.2.2.2.2.1])
+
+theorem static_proc (a : World) (h p : Nat) (f : Proc → Proc) (hf : ProcKeep f) : Static a (a.updProc h p f) := by
+  refine ⟨rfl, rfl, rfl, rfl, fun _ => rfl, fun _ => rfl, fun _ => ⟨rfl, rfl, rfl⟩, ?_, Int.le_refl _⟩
+  intro h' p'; simp only [World.updProc]; by_cases e : h' = h ∧ p' = p <;> simp [e, (hf _).2.2.1, (hf _).2.2.2]
+
+theorem hostKeep_load (v : Int) : HostKeep fun H => { H with load := v, statLoad := v } :=
+  fun _ => ⟨rfl, rfl, rfl, rfl, rfl, rfl, rfl, rfl⟩
+theorem procKeep_load (v : Int) : ProcKeep fun P => { P with load := v, statLoad := v } :=
+  fun _ => ⟨rfl, rfl, rfl, rfl⟩
+
 theorem static_prim {a b : World} (p : Prim a b) : Static a b := by
   cases p with
+  | hostLoad h v =>
+    have S := static_host a h _ (hostKeep_load v)
+    exact ⟨S.1, S.2, S.3, S.4, S.5, S.6, S.7, S.8, S.9⟩
+  | procLoad h p v =>
+    have S := static_proc a h p _ (procKeep_load v)
+    exact ⟨S.1, S.2, S.3, S.4, S.5, S.6, S.7, S.8, S.9⟩
   | misc => exact ⟨rfl, rfl, rfl, rfl, fun _ => rfl, fun _ => rfl, fun _ => ⟨rfl, rfl, rfl⟩, fun _ _ => ⟨rfl, rfl⟩, Int.le_refl _⟩
-  | host h f hf =>
-    refine ⟨rfl, rfl, rfl, rfl, ?_, ?_, ?_, fun _ _ => ⟨rfl, rfl⟩, Int.le_refl _⟩
-    all_goals (intro h'; simp only [World.updHost]; by_cases e : h' = h <;> simp [e, (hf _).1, (hf _).2.2.1, (hf _).2.2.2.1, (hf _).2.2.2.2.1, (hf _).2.2.2.2.2.1])
-  | proc h p f hf =>
-    refine ⟨rfl, rfl, rfl, rfl, fun _ => rfl, fun _ => rfl, fun _ => ⟨rfl, rfl, rfl⟩, ?_, Int.le_refl _⟩
-    intro h' p'; simp only [World.updProc]; by_cases e : h' = h ∧ p' = p <;> simp [e, (hf _).2.2.1, (hf _).2.2.2]
+  | host h f hf hl => exact static_host a h f hf
+  | proc h p f hf hl => exact static_proc a h p f hf
   | disable h p hp =>
     have H := setPState_host (a.updProc h p fun P => { P with disabledUntil := a.now + (a.host h).disableTime }) h p .overloaded
     have P := setPState_proc (a.updProc h p fun P => { P with disabledUntil := a.now + (a.host h).disableTime }) h p .overloaded
@@ -283,17 +302,15 @@ theorem reach_hostGet (w : World) (s : Nat) : Reach w (hostGet w s).2 := by
   · exact reach_lastUsed _ _
   · reach_close
 
-theorem reach_hostLoad (w : World) (h : Nat) (f : Int → Int) :
-    Reach w (w.updHost h fun H => { H with load := f H.load, statLoad := f H.load }) :=
-  Reach.one (Prim.host w h _ (fun _ => ⟨rfl, rfl, rfl, rfl, rfl, rfl, rfl, rfl⟩))
+theorem reach_hostLoad (w : World) (h : Nat) (v : Int) : Reach w (setHostLoad w h v) :=
+  Reach.one (Prim.hostLoad w h v)
 
-theorem reach_procLoad (w : World) (h p : Nat) (f : Int → Int) :
-    Reach w (w.updProc h p fun P => { P with load := f P.load, statLoad := f P.load }) :=
-  Reach.one (Prim.proc w h p _ (fun _ => ⟨rfl, rfl, rfl, rfl⟩))
+theorem reach_procLoad (w : World) (h p : Nat) (v : Int) : Reach w (setProcLoad w h p v) :=
+  Reach.one (Prim.procLoad w h p v)
 
 theorem reach_hctxs (w : World) (h : Nat) (f : List Nat → List Nat) :
     Reach w (w.updHost h fun H => { H with hctxs := f H.hctxs }) :=
-  Reach.one (Prim.host w h _ (fun _ => ⟨rfl, rfl, rfl, rfl, rfl, rfl, rfl, rfl⟩))
+  Reach.one (Prim.host w h _ (fun _ => ⟨rfl, rfl, rfl, rfl, rfl, rfl, rfl, rfl⟩) (fun _ => ⟨rfl, rfl⟩))
 
 theorem reach_counters (w : World) (ga cf : Int) (pc op cl : Nat) :
     Reach w { w with globalActive := ga, curFds := cf, pendClose := pc, opened := op, closed := cl } :=
@@ -303,14 +320,14 @@ theorem reach_hostAssign (w : World) (s h : Nat) : Reach w (hostAssign w s h) :=
   unfold hostAssign
   split
   · exact Reach.refl _
-  · exact (reach_updLink _ _ _).trans (reach_hostLoad _ h (· + 1))
+  · exact (reach_updLink _ _ _).trans (reach_hostLoad _ h _)
 
 theorem reach_procAcquire (w : World) (s h p : Nat) : Reach w (procAcquire w s h p) := by
   unfold procAcquire
   split
   · exact Reach.refl _
   · dsimp only
-    exact ((reach_updLink _ _ _).trans (reach_procLoad _ h p (· + 1))).trans
+    exact ((reach_updLink _ _ _).trans (reach_procLoad _ h p _)).trans
       (reach_counters _ _ _ _ _ _)
 
 theorem reach_openFd (w : World) (s : Nat) : Reach w (openFd w s) := by
@@ -350,11 +367,11 @@ theorem reach_backendClose (w : World) (s : Nat) : Reach w (backendClose w s) :=
     · exact R1
     · rename_i h _
       refine Reach.trans ?_ (reach_updLink _ _ _)
-      refine Reach.trans ?_ (reach_hostLoad _ h (· - 1))
+      refine Reach.trans ?_ (reach_hostLoad _ h _)
       split
       · rename_i p _
         refine Reach.trans ?_ (reach_updLink _ _ _)
-        exact (R1.trans (reach_procLoad _ h p (· - 1))).trans (reach_counters _ _ _ _ _ _)
+        exact (R1.trans (reach_procLoad _ h p _)).trans (reach_counters _ _ _ _ _ _)
       · exact R1
 
 macro_rules | `(tactic| reach_peel) => `(tactic| first
@@ -454,11 +471,13 @@ theorem reach_wrConnect (w : World) (s h p : Nat) (hp : p < (w.host h).nprocs)
   obtain ⟨sc, e⟩ := popConn_eq w
   unfold wrConnect; dsimp only
   rw [e]
-  have R1 : Reach w ({ w with script := sc }.emit (.dispatch s h p)) :=
-    (reach_script w sc).trans (Reach.one (Prim.dispatch _ s h p hp hs))
-  generalize ({ w with script := sc }.emit (.dispatch s h p)) = W at R1 ⊢
+  have R1 : Reach w (({ w with script := sc }.emit (.dispatch s h p)).updAux s
+      fun a => { a with dispatched := a.dispatched + 1 }) :=
+    ((reach_script w sc).trans (Reach.one (Prim.dispatch _ s h p hp hs))).trans (reach_updAux _ _ _)
+  generalize (({ w with script := sc }.emit (.dispatch s h p)).updAux s
+      fun a => { a with dispatched := a.dispatched + 1 }) = W at R1 ⊢
   split
-  · exact (R1.trans (reach_updAux _ _ _)).trans (reach_wrConnected _ _)
+  · exact R1.trans (reach_wrConnected _ _)
   · dsimp only; reach_close
   · dsimp only
     refine R1.trans (reach_connectError _ _ _ _ ?_)
@@ -498,7 +517,7 @@ theorem procAcquire_frame (w : World) (s h p : Nat) :
   | none => simp
   | some c =>
     refine ⟨fun _ => rfl, fun h' p' => ?_⟩
-    simp only [World.updProc, World.updLink, World.updSlot]
+    simp only [setProcLoad, World.updProc, World.updLink, World.updSlot]
     by_cases e : h' = h ∧ p' = p <;> simp [e]
 
 theorem wrRegister_frame (w : World) (s h p : Nat) :
@@ -835,15 +854,23 @@ theorem avail_congr {a b : World} (hh : ∀ h, (b.host h).active = (a.host h).ac
   apply sumTo_congr
   intro q _; rw [hp]
 
+theorem avail_host {a : World} (h : Nat) (f : Host → Host) (hf : HostKeep f) (hA : Avail a) :
+    Avail (a.updHost h f) := by
+  refine avail_congr (a := a) ?_ (fun _ _ => rfl) hA
+  intro h'; simp only [World.updHost]; by_cases e : h' = h <;> simp [e, (hf _).1, (hf _).2.1]
+
+theorem avail_proc {a : World} (h p : Nat) (f : Proc → Proc) (hf : ProcKeep f) (hA : Avail a) :
+    Avail (a.updProc h p f) := by
+  refine avail_congr (a := a) (fun _ => ⟨rfl, rfl⟩) ?_ hA
+  intro h' p'; simp only [World.updProc]; by_cases e : h' = h ∧ p' = p <;> simp [e, (hf _).1]
+
 theorem avail_prim {a b : World} (p : Prim a b) (hA : Avail a) : Avail b := by
   cases p with
+  | hostLoad h v => exact fun h' => avail_host h _ (hostKeep_load v) hA h'
+  | procLoad h p v => exact fun h' => avail_proc h p _ (procKeep_load v) hA h'
   | misc => exact avail_congr (a := a) (fun _ => ⟨rfl, rfl⟩) (fun _ _ => rfl) hA
-  | host h f hf =>
-    refine avail_congr (a := a) ?_ (fun _ _ => rfl) hA
-    intro h'; simp only [World.updHost]; by_cases e : h' = h <;> simp [e, (hf _).1, (hf _).2.1]
-  | proc h p f hf =>
-    refine avail_congr (a := a) (fun _ => ⟨rfl, rfl⟩) ?_ hA
-    intro h' p'; simp only [World.updProc]; by_cases e : h' = h ∧ p' = p <;> simp [e, (hf _).1]
+  | host h f hf hl => exact avail_host h f hf hA
+  | proc h p f hf hl => exact avail_proc h p f hf hA
   | disable h p hp =>
     refine avail_setPState (w := a.updProc h p _) h p .overloaded hp ?_
     refine avail_congr (a := a) (fun _ => ⟨rfl, rfl⟩) ?_ hA
@@ -898,22 +925,30 @@ theorem disable_proc (a : World) (h p h' p' : Nat) :
   · rw [P.2.2.2.2]; simp only [World.updProc]; by_cases e : h' = h ∧ p' = p <;> simp [e]
   · rw [P.2.2.1]; simp only [World.updProc]; by_cases e : h' = h ∧ p' = p <;> simp [e]
 
+theorem winv_host {a : World} (h : Nat) (f : Host → Host) (hf : HostKeep f) (hW : WInv a) :
+    WInv (a.updHost h f) := by
+  intro h' p' hs
+  have := hW h' p' hs
+  rw [(static_host a h f hf).disableTime]; exact this
+
+theorem winv_proc {a : World} (h p : Nat) (f : Proc → Proc) (hf : ProcKeep f) (hW : WInv a) :
+    WInv (a.updProc h p f) := by
+  intro h' p' hs
+  simp only [World.updProc] at hs ⊢
+  by_cases e : h' = h ∧ p' = p
+  · simp only [e, and_self, if_true] at hs ⊢
+    rw [(hf _).1] at hs; rw [(hf _).2.1]
+    obtain ⟨rfl, rfl⟩ := e; exact hW _ _ hs
+  · simp only [e, if_false] at hs ⊢; exact hW _ _ hs
+
 theorem winv_prim {a b : World} (pr : Prim a b) (hW : WInv a) : WInv b := by
   have S := static_prim pr
   cases pr with
+  | hostLoad h v => exact fun h' p' hs => winv_host h _ (hostKeep_load v) hW h' p' hs
+  | procLoad h p v => exact fun h' p' hs => winv_proc h p _ (procKeep_load v) hW h' p' hs
   | misc => exact hW
-  | host h f hf =>
-    intro h' p' hs
-    have := hW h' p' hs
-    rw [S.disableTime]; exact this
-  | proc h p f hf =>
-    intro h' p' hs
-    simp only [World.updProc] at hs ⊢
-    by_cases e : h' = h ∧ p' = p
-    · simp only [e, and_self, if_true] at hs ⊢
-      rw [(hf _).1] at hs; rw [(hf _).2.1]
-      obtain ⟨rfl, rfl⟩ := e; exact hW _ _ hs
-    · simp only [e, if_false] at hs ⊢; exact hW _ _ hs
+  | host h f hf hl => exact winv_host h f hf hW
+  | proc h p f hf hl => exact winv_proc h p f hf hW
   | disable h p hp =>
     intro h' p' hs
     have D := disable_proc a h p h' p'
@@ -948,21 +983,26 @@ theorem winv_prim {a b : World} (pr : Prim a b) (hW : WInv a) : WInv b := by
     show (a.proc h' p').disabledUntil ≤ a.now + (dt : Int) + (a.host h').disableTime
     omega
 
+theorem win_proc {a : World} {h p : Nat} {D : Int} (h' p' : Nat) (f : Proc → Proc) (hf : ProcKeep f)
+    (hwin : Win h p D a) : Win h p D (a.updProc h' p' f) := by
+  obtain ⟨hst, hD⟩ := hwin
+  unfold Win
+  simp only [World.updProc]
+  by_cases e : h = h' ∧ p = p'
+  · obtain ⟨rfl, rfl⟩ := e
+    simp only [and_self, if_true, (hf _).1, (hf _).2.1]; exact ⟨hst, hD⟩
+  · simp only [e, if_false]; exact ⟨hst, hD⟩
+
 theorem win_prim {a b : World} {h p : Nat} {D : Int} (pr : Prim a b) (hW : WInv a) (hnow : b.now ≤ D)
     (hwin : Win h p D a) :
     Win h p D b ∧ (b.log = a.log ∨ ∃ e, b.log = e :: a.log ∧ ∀ s, e ≠ .dispatch s h p) := by
   obtain ⟨hst, hD⟩ := hwin
   cases pr with
   | misc => exact ⟨⟨hst, hD⟩, Or.inl rfl⟩
-  | host h' f hf => exact ⟨⟨hst, hD⟩, Or.inl rfl⟩
-  | proc h' p' f hf =>
-    refine ⟨?_, Or.inl rfl⟩
-    unfold Win
-    simp only [World.updProc]
-    by_cases e : h = h' ∧ p = p'
-    · obtain ⟨rfl, rfl⟩ := e
-      simp only [and_self, if_true, (hf _).1, (hf _).2.1]; exact ⟨hst, hD⟩
-    · simp only [e, if_false]; exact ⟨hst, hD⟩
+  | host h' f hf hl => exact ⟨⟨hst, hD⟩, Or.inl rfl⟩
+  | hostLoad h' v => exact ⟨⟨hst, hD⟩, Or.inl rfl⟩
+  | proc h' p' f hf hl => exact ⟨win_proc h' p' f hf ⟨hst, hD⟩, Or.inl rfl⟩
+  | procLoad h' p' v => exact ⟨win_proc h' p' _ (procKeep_load v) ⟨hst, hD⟩, Or.inl rfl⟩
   | disable h' p' hp =>
     have Dp := disable_proc a h' p' h p
     simp only at Dp
@@ -1644,8 +1684,8 @@ theorem backendClose_hosts (w : World) (s : Nat) (h : Nat) :
   · rename_i c _
     dsimp only
     cases c.link.fd <;> cases c.link.host <;> cases c.link.proc <;>
-      simp [World.updHost, World.updLink, World.updAux, World.updSlot, World.updProc] <;>
-      (try split) <;> simp_all
+      simp [setHostLoad, setProcLoad, World.updHost, World.updLink, World.updAux, World.updSlot, World.updProc] <;>
+      (try split) <;> (try simp_all)
 
 /-- a retry goes to a host gw_host_get() chose — hence (c11_only_available) one with an active proc —
     and restarts the request in GW_STATE_INIT on it -/
